@@ -1,5 +1,5 @@
 SPECIFICATION Spec19
-CONSTANT Types4 = {"qst", "povmt", "qpt", "qmpt"}
+CONSTANT Types4 = {"qst", "povmt", "qpt"}
 CONSTANT StateSets = {"S4", "S6"}
 CONSTANT PovmSets = {"P3", "P33"}
 CONSTANT SchedVariants = {"all"}
